@@ -98,6 +98,8 @@ def pref_tags(p):
     else:
         base = 'other'
     try:
+        if not np.isscalar(p):
+            raise TypeError('not a scalar')
         c = complex(p)
         if c != c:
             val = 'nan'
@@ -489,6 +491,9 @@ def c_iadd_prefactor_other(self, prefactor, other):
                     shared = any(q in common and pa.get(q) == data_ptr(b) for q, b in zip(rb, other._data))
                     path = 'fast-path' if mt[-1] == 'merge=identical-tables' or 'merge=identical-tables' in mt else 'general-path'
                     t.append('%s&%s' % (path, 'same-pointer' if shared else 'distinct-pointers'))
+                    if shared:
+                        t.append('%s&same-pointer&%s' % (path, 'daxpy' if cn == 'f8' else (
+                            'zaxpy-real-prefactor' if complex(prefactor).imag == 0 else 'zaxpy-complex-prefactor')))
                 t += ['%s&lay_s=%s' % (kind, lay(self)), '%s&lay_o=%s' % (kind, lay(other)), '%s&%s' % (kind, al[0])]
                 t += ['%s&%s' % (kind, m) for m in mt if m.startswith('merge')]
                 pv = [x for x in t if x.startswith('pval=')][0]
@@ -783,13 +788,26 @@ PAIRS = {   # python name of the pair -> (owner getter, attribute, classifier)
 }
 
 
+SAMPLED = ('ChargeInfo.make_valid', 'ChargeInfo.check_valid', '_make_stride', '_find_row_differences')
+
+
 def _wrap(pair, orig, classify):
     import functools
+
+    sampled = pair in SAMPLED
+    cnt = [0]
 
     @functools.wraps(orig)
     def recorder(*args, **kw):
         if not ACTIVE[0] or DEPTH[0] > 0:
             return orig(*args, **kw)
+        if sampled and not STREAM[0].startswith('kernels'):
+            # called tens of thousands of times from inside every program: classify every 8th call only (direct helper calls: all)
+            cnt[0] += 1
+            if cnt[0] % 8:
+                d = TAGS.setdefault(pair, {}).setdefault('calls', {})
+                d[STREAM[0]] = d.get(STREAM[0], 0) + 1
+                return orig(*args, **kw)
         DEPTH[0] += 1                 # the classifiers call tenpy functions themselves: do not record those
         try:
             try:
